@@ -48,6 +48,7 @@ func (s *syncStore[H]) Append(ctx context.Context, headers ...H) error {
 	}
 
 	head, err := s.Head(ctx)
+	verifPoint(ctx, "syncStore.Append.afterHeadLoad", headers[0].Height())
 	if errors.Is(err, header.ErrEmptyStore) {
 		// short-circuit for an initialization path
 		if err := s.Store.Append(ctx, headers...); err != nil {
